@@ -1,5 +1,6 @@
 CONSTANTS
   MaxPer = 3
+  MaxKw = 4
   Emit = TRUE
   Variant = "fixed"
 SPECIFICATION Spec
